@@ -1172,3 +1172,243 @@ Proof.
   - intros p u E. discriminate.
   - intros p u E. discriminate.
 Qed.
+
+(** * Lookup, and the machine step *)
+
+Lemma get_entry_t : forall fuel a idx k,
+  AInv a -> TInv a -> cpn a <= idx -> TInv (fst (a_get_entry fuel a idx k)).
+Proof.
+  induction fuel as [|fuel IH]; intros a idx k H T Hi; cbn [a_get_entry]; [exact T|].
+  destruct (follow_stem k (an_path (node_at a idx))) as [|s ps|c k'|cm kc kr sc sr]; cbn [fst]; try exact T.
+  destruct (make_owned_ok a idx H Hi) as (O1 & Eown). destruct (make_owned_t a idx H T Hi) as (T1 & _).
+  destruct (find_child c (an_ch (node_at (make_owned a idx) idx)) 0) as [[pos i]|] eqn:F; [|exact T1].
+  destruct (find_child_in _ _ _ _ _ F) as [kk Hin].
+  pose proof (make_owned_children a idx (kk, i) H Hi Hin) as Hci. cbn [snd] in Hci.
+  destruct (Ok_cp _ _ O1) as (F1 & _).
+  apply IH; [apply O1 | exact T1 | rewrite F1; exact Hci].
+Qed.
+
+Lemma lookup_key_t a key : AInv a -> TInv a -> TInv (fst (a_lookup_key a key)).
+Proof.
+  intros H T. unfold a_lookup_key. destruct (cur_root a) as [r|] eqn:Er; [|exact T].
+  apply get_entry_t; [exact H | exact T | apply (AI_root a H r Er)].
+Qed.
+
+Theorem as_step_t o s :
+  SInv s -> TInv (as_arena s) -> gen_op o = false -> TInv (as_arena (fst (as_step o s))).
+Proof.
+  intros (H & Hh & Hne & Hl) T Hg.
+  destruct o; try discriminate Hg; cbn [as_step]; try exact T.
+  - pose proof (ar_insert_t (as_arena s) k v H T Hne) as X.
+    destruct (ar_insert (as_arena s) k v) as [[a1 e] existed]. cbn [fst] in *. rewrite arena_push_handle. exact X.
+  - pose proof (lookup_key_t (as_arena s) k H T) as X.
+    destruct (a_lookup_key (as_arena s) k) as [a1 [e|]]; cbn [fst] in *; [rewrite arena_push_handle|]; exact X.
+  - destruct (nth_error (cur_handles s) h); exact T.
+  - destruct (nth_error (cur_handles s) h) as [e|]; [|exact T].
+    destruct (a_set_shape (as_arena s) e v) as (E1 & E2).
+    destruct (a_set (as_arena s) e v) as [a1 b]. cbn [fst] in *. eapply TInv_same_nodes; eassumption.
+  - destruct (nth_error (cur_handles s) h) as [e|]; [|exact T].
+    destruct (a_mut_shape (as_arena s) e v) as (E1 & E2).
+    destruct (a_mut (as_arena s) e v) as [a1 b]. cbn [fst] in *. eapply TInv_same_nodes; eassumption.
+  - pose proof (ar_delete_t (as_arena s) k H T Hne) as X.
+    destruct (ar_delete (as_arena s) k) as [a1 b]. exact X.
+  - pose proof (ar_delete_prefix_t (as_arena s) k H T Hne) as X.
+    destruct (ar_delete_prefix (as_arena s) k) as [a1 b]. exact X.
+Qed.
+
+(** * The generation tag of the root: a consequence of the tree invariant *)
+
+Theorem tinv_tag_ok a : TInv a -> tag_ok a = true.
+Proof.
+  intros T. unfold tag_ok. destruct (cur_root a) as [r|] eqn:Er; [|reflexivity].
+  apply Nat.eqb_eq. apply (T_g a T r). unfold rc, rroot. rewrite Er, Nat.eqb_refl. lia.
+Qed.
+
+(** * [new_generation] establishes the tree invariant of the new generation *)
+
+Lemma sum_zero (f : nat -> nat) n : (forall j, j < n -> f j = 0) -> list_sum (map f (seq 0 n)) = 0.
+Proof.
+  intros Hz. induction n as [|n IH]; [reflexivity|]. rewrite seq_S, map_app, list_sum_app. cbn [map Nat.add].
+  replace (list_sum [f n]) with (f n) by (cbn; lia). rewrite IH by (intros j Hj; apply Hz; lia). apply Hz. lia.
+Qed.
+
+(** Every child index stored anywhere in the arena is in range. *)
+Lemma children_in_range a i c :
+  AInv a -> TInv a -> i < length (a_nodes a) -> In c (chi (node_at a i)) -> c < length (a_nodes a).
+Proof.
+  intros H T Hi Hin. pose proof (AI_len a H) as (L1 & _).
+  destruct (Nat.lt_ge_cases i (cpn a)) as [Hlo|Hhi].
+  - pose proof (T_old a T i c Hlo Hin). lia.
+  - destruct (Nat.eq_dec (an_cgen (node_at a i)) (an_gen (node_at a i))) as [E|E].
+    + apply (T_g a T c). pose proof (owned_le_rc a i c Hi) as X. rewrite owned_unshared in X by assumption.
+      apply cnt_pos in Hin. lia.
+    + pose proof (T_sh a T i c Hhi E Hin). lia.
+Qed.
+
+Lemma TInv_newgen a g e v extra :
+  AInv a -> TInv a -> a_gens a <> [] -> ag_nodes g = length (a_nodes a) ->
+  (extra = [] /\ ag_root g = None
+   \/ exists n', extra = [n'] /\ ag_root g = Some (length (a_nodes a)) /\ an_gen n' = S (gnum a)
+                 /\ an_cgen n' <= gnum a /\ forall c, In c (chi n') -> c < length (a_nodes a)) ->
+  TInv (mkA (a_gens a ++ [g]) e v (a_nodes a ++ extra)).
+Proof.
+  intros H T Hne Hg Hx. set (L := length (a_nodes a)) in *. set (a' := mkA (a_gens a ++ [g]) e v (a_nodes a ++ extra)).
+  assert (C : cpn a' = L) by (unfold cpn, a'; rewrite cur_checkpoint_app; exact Hg).
+  assert (G : gnum a' = S (gnum a)).
+  { unfold gnum, a'. cbn [a_gens]. rewrite app_length. cbn. destruct (a_gens a); [congruence | cbn; lia]. }
+  assert (Rt : cur_root a' = ag_root g) by apply cur_root_app.
+  assert (Nlo : forall j, j < L -> node_at a' j = node_at a j).
+  { intros j Hj. unfold node_at, a'. cbn [a_nodes]. apply app_nth1. exact Hj. }
+  assert (Own : forall j, owned a' j = []).
+  { intros j. unfold owned, owned_of. rewrite C. destruct (Nat.leb_spec L j) as [Hj|Hj]; [|reflexivity]. cbn [andb].
+    destruct Hx as [(-> & _)|(n' & -> & _ & Gn & Cn & _)].
+    - unfold node_at, a'. cbn [a_nodes]. rewrite app_nil_r, nth_overflow by (fold L; lia). reflexivity.
+    - unfold node_at, a'. cbn [a_nodes]. rewrite nth_app_single. fold L.
+      destruct (Nat.eqb_spec j L).
+      + unfold unsh. destruct (Nat.eqb_spec (an_cgen n') (an_gen n')); [lia | reflexivity].
+      + rewrite nth_overflow by (fold L; lia). reflexivity. }
+  assert (Rn : forall x, rcn a' x = 0).
+  { intros x. unfold rcn. apply sum_zero. intros j _. rewrite Own. reflexivity. }
+  assert (Chi : forall j c, In c (chi (node_at a' j)) -> c < L).
+  { intros j c Hin. destruct (Nat.lt_ge_cases j L) as [Hj|Hj].
+    - rewrite Nlo in Hin by exact Hj. apply (children_in_range a j c H T Hj Hin).
+    - destruct Hx as [(-> & _)|(n' & -> & _ & _ & _ & Hc)].
+      + unfold node_at, a' in Hin. cbn [a_nodes] in Hin. rewrite app_nil_r, nth_overflow in Hin by (fold L; lia). destruct Hin.
+      + unfold node_at, a' in Hin. cbn [a_nodes] in Hin. rewrite nth_app_single in Hin. fold L in Hin.
+        destruct (Nat.eqb_spec j L); [apply Hc; exact Hin|].
+        rewrite nth_overflow in Hin by (fold L; lia). destruct Hin. }
+  constructor.
+  - intros x. unfold rc. rewrite Rn. unfold rroot. destruct (cur_root a'); [destruct (Nat.eqb _ _)|]; lia.
+  - intros x Hx1. unfold rc in Hx1. rewrite Rn in Hx1. unfold rroot in Hx1. rewrite Rt in Hx1.
+    destruct Hx as [(_ & Er)|(n' & -> & Er & Gn & _)]; rewrite Er in Hx1; [lia|].
+    destruct (Nat.eqb_spec L x) as [E|]; [|lia]. rewrite <- E. split.
+    + unfold a'. cbn [a_nodes]. rewrite app_length. cbn. fold L. lia.
+    + rewrite G. unfold node_at, a'. cbn [a_nodes]. rewrite nth_app_single. fold L. rewrite Nat.eqb_refl. exact Gn.
+  - intros i c _ _ Hin. rewrite C. eapply Chi. exact Hin.
+  - intros i c _ Hin. rewrite C. eapply Chi. exact Hin.
+Qed.
+
+Theorem new_generation_t a : AInv a -> TInv a -> a_gens a <> [] -> TInv (a_new_generation a).
+Proof.
+  intros H T Hne. pose proof (tinv_tag_ok a T) as Htag. unfold tag_ok in Htag.
+  unfold a_new_generation. destruct (cur_root a) as [r|] eqn:Er.
+  - apply Nat.eqb_eq in Htag. pose proof (migrate_shape a (node_at a r) (S (an_gen (node_at a r)))) as M.
+    destruct (migrate a (node_at a r) (S (an_gen (node_at a r)))) as [a1 n'].
+    destruct M as (M1 & _ & M3 & _ & M5 & _ & M7 & M8).
+    cbn [push_node a_gens a_entries a_values a_nodes]. rewrite M1, M3.
+    apply TInv_newgen; try assumption; [reflexivity|]. right. exists n'.
+    split; [reflexivity|]. split; [reflexivity|]. split; [congruence|]. split.
+    + rewrite M8. apply (AI_le a H r).
+    + intros c Hin. unfold chi in Hin. rewrite M7 in Hin.
+      assert (Hr : r < length (a_nodes a)) by (apply (T_g a T r); unfold rc, rroot; rewrite Er, Nat.eqb_refl; lia).
+      apply (children_in_range a r c H T Hr Hin).
+  - destruct (a_gens a) as [|g0 gs0] eqn:Eg; [congruence|]. rewrite <- Eg.
+    replace (a_nodes a) with (a_nodes a ++ []) at 2 by apply app_nil_r.
+    apply TInv_newgen; try assumption; [congruence | reflexivity | left; auto].
+Qed.
+
+Lemma TInv_empty : TInv a_empty.
+Proof.
+  constructor.
+  - intros x. cbn. lia.
+  - intros x Hx. cbn in Hx. lia.
+  - intros i c _ _ Hin. unfold node_at in Hin. cbn in Hin. destruct i; destruct Hin.
+  - intros i c _ Hin. unfold node_at in Hin. cbn in Hin. destruct i; destruct Hin.
+Qed.
+
+(** * Reachable states: the run-time check of [as_exec] never fails *)
+
+Definition as_run (ops : list op) (s : astate) : astate :=
+  fold_left (fun s o => fst (as_step o s)) ops s.
+
+Lemma as_run_app a b s : as_run (a ++ b) s = as_run b (as_run a s).
+Proof. apply fold_left_app. Qed.
+
+(** The full invariant of the arena machine: ownership ([SInv]), tree shape ([TInv]), and a
+    stack of saved states (one per older generation), each with the same invariants. *)
+Definition Reach (s : astate) : Prop :=
+  SInv s /\ TInv (as_arena s)
+  /\ exists saved, Hist s saved /\ Forall (fun b => TInv (as_arena b)) saved.
+
+Lemma Reach_init : Reach as_init.
+Proof.
+  split; [exact SInv_init|]. split; [exact TInv_empty|]. exists []. split; [exact Hist_init | constructor].
+Qed.
+
+Lemma Forall_skipn {A} (P : A -> Prop) n l : Forall P l -> Forall P (skipn n l).
+Proof.
+  revert l. induction n as [|n IH]; intros l H; [exact H|]. destruct l; [constructor|].
+  inversion H; subst. cbn [skipn]. apply IH. assumption.
+Qed.
+
+Theorem Reach_step o s : Reach s -> Reach (fst (as_step o s)).
+Proof.
+  intros (HS & T & saved & HH & FT).
+  destruct (gen_op o) eqn:Hg.
+  - destruct o; try discriminate Hg.
+    + (* new_generation *)
+      pose proof (tinv_tag_ok _ T) as Et. destruct (newgen_step s saved HH HS Et) as (H1 & S1).
+      split; [exact S1|]. split.
+      * cbn [as_step fst as_arena]. destruct HS as (H & _ & Hne & _). apply new_generation_t; assumption.
+      * exists (s :: saved). split; [exact H1 | constructor; assumption].
+    + (* normalize *)
+      pose proof HS as (_ & _ & _ & Hlc).
+      destruct (Nat.le_gt_cases (length (a_gens (as_arena s))) (S r)) as [Hle|Hgt].
+      * rewrite (normalize_noop s r Hlc Hle). split; [exact HS|]. split; [exact T|]. exists saved. auto.
+      * destruct (normalize_hist _ s r HH HS Hgt) as (b & Hn & Hs & Hh & Sb). rewrite Hs.
+        split; [exact Sb|]. split.
+        -- rewrite Forall_forall in FT. apply FT. eapply nth_error_In. exact Hn.
+        -- eexists. split; [exact Hh | apply Forall_skipn; exact FT].
+  - split; [apply (proj1 (proj2 (as_step_cow o s HS Hg)))|]. split; [apply as_step_t; assumption|].
+    exists saved. split; [apply Hist_step; assumption | exact FT].
+Qed.
+
+Lemma Reach_run : forall ops s, Reach s -> Reach (as_run ops s).
+Proof.
+  induction ops as [|o ops IH]; intros s R; [exact R|]. cbn [as_run fold_left]. apply IH. apply Reach_step. exact R.
+Qed.
+
+(** In a reachable state the generation tag of the root is the number of the current
+    generation (the fact the extracted runner reports as [!TAG] if violated). *)
+Theorem reach_tag_ok s : Reach s -> root_tag_ok (as_arena s) = true.
+Proof. intros (_ & T & _). rewrite <- tag_ok_eq. apply tinv_tag_ok. exact T. Qed.
+
+(** The checked run [as_exec] never stops: it is the plain run. *)
+Theorem as_exec_run : forall ops s, Reach s -> as_exec ops s = Some (as_run ops s).
+Proof.
+  induction ops as [|o ops IH]; intros s R; cbn [as_exec as_run fold_left]; [reflexivity|].
+  assert (E : (match o with ONewGen => tag_ok (as_arena s) | _ => true end) = true).
+  { destruct o; try reflexivity. apply tinv_tag_ok. apply R. }
+  rewrite E. apply IH. apply Reach_step. exact R.
+Qed.
+
+Theorem reachable_tag_ok ops : root_tag_ok (as_arena (as_run ops as_init)) = true.
+Proof. apply reach_tag_ok, Reach_run, Reach_init. Qed.
+
+(** * No leak and rollback for plain runs (no side condition) *)
+
+Theorem arena_no_leak_run pre ops :
+  let s := as_run pre as_init in
+  let c := as_run (ONewGen :: ops) s in
+  Forall (keeps (length (a_gens (as_arena s)))) ops ->
+  firstn (length (a_nodes (as_arena s))) (a_nodes (as_arena c)) = a_nodes (as_arena s)
+  /\ firstn (length (a_values (as_arena s))) (a_values (as_arena c)) = a_values (as_arena s)
+  /\ firstn (length (a_entries (as_arena s))) (a_entries (as_arena c)) = a_entries (as_arena s)
+  /\ firstn (length (a_gens (as_arena s))) (a_gens (as_arena c)) = a_gens (as_arena s).
+Proof.
+  intros s c Hk. pose proof (Reach_run pre as_init Reach_init) as R. fold s in R.
+  destruct R as (HS & T & saved & HH & FT).
+  apply (arena_no_leak_hist s saved ops c HH HS Hk).
+  apply as_exec_run. split; [exact HS|]. split; [exact T|]. exists saved. auto.
+Qed.
+
+Theorem arena_rollback_run pre ops :
+  let s := as_run pre as_init in
+  Forall (keeps (length (a_gens (as_arena s)))) ops ->
+  as_run (ONewGen :: ops ++ [ONormalize (length (a_gens (as_arena s)) - 1)]) s = s.
+Proof.
+  intros s Hk. pose proof (Reach_run pre as_init Reach_init) as R. fold s in R.
+  pose proof R as (HS & T & saved & HH & FT).
+  apply (arena_rollback_hist s saved ops _ HH HS Hk).
+  apply as_exec_run. exact R.
+Qed.
